@@ -745,6 +745,26 @@ func valueOrigins(v ssa.Value) []ssa.Value {
 			walk(x.X, d+1)
 		case *ssa.MakeInterface:
 			walk(x.X, d+1)
+		case *ssa.Extract:
+			// result of a same-package helper: what its returns yield
+			if call, ok := x.Tuple.(*ssa.Call); ok {
+				if f := call.Call.StaticCallee(); f != nil && len(f.Blocks) > 0 && call.Parent() != nil && defaultInline(call.Parent(), f) {
+					for _, b := range f.Blocks {
+						if ret, ok := b.Instrs[len(b.Instrs)-1].(*ssa.Return); ok && x.Index < len(ret.Results) {
+							walk(ret.Results[x.Index], d+1)
+						}
+					}
+				}
+			}
+		}
+		if call, ok := v.(*ssa.Call); ok {
+			if f := call.Call.StaticCallee(); f != nil && len(f.Blocks) > 0 && f.Signature.Results().Len() == 1 && call.Parent() != nil && defaultInline(call.Parent(), f) {
+				for _, b := range f.Blocks {
+					if ret, ok := b.Instrs[len(b.Instrs)-1].(*ssa.Return); ok && len(ret.Results) == 1 {
+						walk(ret.Results[0], d+1)
+					}
+				}
+			}
 		}
 	}
 	walk(v, 0)
